@@ -322,6 +322,45 @@ fn gen_seq(rng: &mut Rng) -> Vec<Item> {
     h
 }
 
+/// histories over KG names that are prefixes of one another (`s`, `s_eu`, `s_eu2`), relations that
+/// cannot collide as shard file names, every drop eventually followed by a restart
+fn gen_seq_prefix(rng: &mut Rng) -> Vec<Item> {
+    let kgs = ["s", "s_eu", "s_eu2"];
+    let rels = ["r", "x"];
+    let mut id = 1u64;
+    let mut h = vec![];
+    let mut order: Vec<&str> = kgs.to_vec();
+    rng.shuffle(&mut order);
+    for k in &order {
+        h.push(Item::Op(Op::Create { id, k: k.to_string() }));
+        id += 1;
+        h.push(Item::Op(Op::Ins { id, k: k.to_string(), rel: rng.pick(&rels).to_string(), ts: vec![rng.below(5), rng.below(5)] }));
+        id += 1;
+    }
+    let n = rng.range(3, 9);
+    for _ in 0..n {
+        let k = rng.pick(&kgs).to_string();
+        let rel = rng.pick(&rels).to_string();
+        let ts: Vec<u64> = (0..rng.range(1, 2)).map(|_| rng.below(5)).collect();
+        match rng.below(10) {
+            0..=2 => h.push(Item::Op(Op::Ins { id, k, rel, ts })),
+            3 => h.push(Item::Op(Op::Del { id, k, rel, ts })),
+            4 => h.push(Item::Op(Op::Create { id, k })),
+            5..=7 => {
+                h.push(Item::Op(Op::Drop { id, k }));
+                if rng.chance(2, 3) {
+                    h.push(Item::Restart);
+                }
+            }
+            8 => h.push(Item::Op(Op::Rule { id, k, rel: "v_0".to_string() })),
+            _ => h.push(Item::Restart),
+        }
+        id += 1;
+    }
+    h.push(Item::Restart);
+    h
+}
+
 fn seq_corpus() -> Vec<(&'static str, Vec<Item>)> {
     let c = |id, k: &str| Item::Op(Op::Create { id, k: k.to_string() });
     let d = |id, k: &str| Item::Op(Op::Drop { id, k: k.to_string() });
@@ -342,6 +381,9 @@ fn seq_corpus() -> Vec<(&'static str, Vec<Item>)> {
         ("delete-after-drop", vec![c(1, "a"), i(2, "a", "r", &[1]), d(3, "a"), x(4, "a", "r", &[1]), Item::Restart]),
         // plain drop / re-create / restart
         ("drop-recreate", vec![c(1, "a"), i(2, "a", "r", &[1, 2]), Item::Op(Op::Rule { id: 3, k: "a".into(), rel: "v".into() }), d(4, "a"), c(5, "a"), Item::Restart, i(6, "a", "r", &[3]), Item::Restart]),
+        // one KG name is a proper prefix of another: dropping the shorter one must not touch the longer one's shards
+        ("prefix-names-drop-shorter", vec![c(1, "s"), c(2, "s_eu"), i(3, "s", "r", &[1]), i(4, "s_eu", "r", &[2, 3]), d(5, "s"), Item::Restart, i(6, "s_eu", "r", &[4]), Item::Restart]),
+        ("prefix-names-three", vec![c(1, "s_eu2"), c(2, "s_eu"), c(3, "s"), i(4, "s_eu2", "x", &[1]), i(5, "s_eu", "r", &[2]), i(6, "s", "r", &[3]), d(7, "s_eu"), Item::Restart, d(8, "s"), Item::Restart]),
         ("two-kgs-same-relation", vec![c(1, "a"), c(2, "b"), i(3, "a", "r", &[1]), i(4, "b", "r", &[2]), x(5, "a", "r", &[2]), d(6, "b"), Item::Restart]),
     ]
 }
@@ -629,7 +671,7 @@ fn main() {
     }
     let nseq = (args.n / 4).max(20);
     for i in 0..nseq {
-        let h = gen_seq(&mut rng);
+        let h = if i % 3 == 2 { gen_seq_prefix(&mut rng) } else { gen_seq(&mut rng) };
         let o = run_seq(&h, fx, &format!("random-{i}"));
         let tags: Vec<&str> = o.tags.iter().map(String::as_str).collect();
         sink.tally("seq:random");
